@@ -147,6 +147,9 @@ static void history(uint64_t idx, rng_t *r) {
     uint32_t wlen = rng_chance(r, 1, 2) ? 4300 : 200 + (uint32_t)rng_below(r, 8800);
     bool ok = true;
     uint32_t touched[8];
+    char oplog[1400];
+    size_t oplen = 0;
+    oplog[0] = 0;
     for (g_step = 0; g_step < nops && ok; g_step++) {
         int s = (int)rng_below(r, (uint64_t)nlive);
         int op = (int)rng_below(r, OP_N);
@@ -395,6 +398,9 @@ static void history(uint64_t idx, rng_t *r) {
         }
         if (!ok) break;
         int after = typeof_(OBJ[s]);
+        if (g_step < 14 && want_sample() && oplen + 100 < sizeof oplog) {
+            oplen += (size_t)snprintf(oplog + oplen, sizeof oplog - oplen, "%s\"%s(%.60s) -> %s card %u\"", oplen ? "," : "", g_opname + 12, g_opargs, TN[after], MOD[s]->card);
+        }
         if (op != OP_CLONE && op < OP_OR) note_transition(op, before, after);
         if (op >= OP_CODEC) note_transition(op, before, after);
         ok = check_light(s, r, touched, nt);
@@ -417,7 +423,7 @@ static void history(uint64_t idx, rng_t *r) {
     }
     wa_forget_all();
     if (ok) STAT_INC("distinct_nontrivial");
-    if (want_sample()) sample("{\"history_ops\":%d,\"objects\":%d,\"window\":[%u,%u]}", nops, nlive, wbase, wbase + wlen);
+    if (want_sample()) sample("{\"history_ops\":%d,\"objects\":%d,\"window\":[%u,%u],\"first_operations\":[%s]}", nops, nlive, wbase, wbase + wlen, oplog);
 }
 
 int main(int argc, char **argv) {
